@@ -149,6 +149,93 @@ def judge_resolve(g, res, text, part):
                 "evaluate to %s" % (c["what"], ev["ret"]))
 
 
+def judge_shift(g, res, text, part):
+    """the same calibration under low and under shifted, sparse handles"""
+    cnt = part["counters"]
+    La, Lb = g.L["a"], g.L["b"]
+
+    def bad(what, desc):
+        part["violations"].append(dict(
+            key="%s:handle-shift:%s" % (PROP, what),
+            desc="%s %dx%d, %d standards, unknown reflect in %d of them, "
+                 "second vnacal_t with %d parameters before the calibration%s:"
+                 " %s" % (g.sc.ctype, g.sc.r, g.sc.c, g.info["standards"],
+                          g.shape[3], g.info["shift"],
+                          " (some deleted again)" if g.info["holes"] else "",
+                          desc),
+            script=text))
+    adds_a = [(res.ev(l) or {}).get("ret") for l in La["add"]]
+    adds_b = [(res.ev(l) or {}).get("ret") for l in Lb["add"]]
+    if adds_a != adds_b:
+        bad("add-differs", "vnacal_new_add_* returned %s under low handles, "
+            "%s under shifted handles" % (adds_a, adds_b))
+        return
+    if any(x != 0 for x in adds_a):
+        cnt["shift_add_refused"] = cnt.get("shift_add_refused", 0) + 1
+        return
+    sa, sb = res.ev(La["solve"]), res.ev(Lb["solve"])
+    if sa is None or sb is None or "ret" not in sa or "ret" not in sb:
+        return
+    cnt["shift_pairs"] = cnt.get("shift_pairs", 0) + 1
+    part["distinct"].add(("shift",) + g.shape)
+    if sa["ret"] != sb["ret"]:
+        bad("solve-verdict", "vnacal_new_solve returned %s under low "
+            "handles, %s under shifted handles" % (
+                (sa["ret"], sa.get("cb")), (sb["ret"], sb.get("cb"))))
+        return
+    if sa["ret"] != 0:
+        cnt["shift_both_failed"] = cnt.get("shift_both_failed", 0) + 1
+        return
+    tol = 1e-8 * (1 + g.kappa)
+    va, vb = res.ev(La["value"]), res.ev(Lb["value"])
+    worst = 0.0
+    if va is None or vb is None or not isinstance(va.get("ret"), list) or \
+            not isinstance(vb.get("ret"), list) or \
+            len(va["ret"]) != len(vb["ret"]):
+        bad("value-unavailable", "vnacal_get_parameter_value of the solved "
+            "unknown: %s / %s" % (va, vb))
+        return
+    for x, y in zip(va["ret"], vb["ret"]):
+        zx, zy = complex(x[0], x[1]), complex(y[0], y[1])
+        d = abs(zx - zy) if np.isfinite(zx) and np.isfinite(zy) else \
+            float("inf")
+        worst = max(worst, d)
+    part["maxima"]["shift_value_diff_over_tol"] = max(
+        part["maxima"].get("shift_value_diff_over_tol", 0.0), worst / tol)
+    if not worst <= tol:
+        bad("solved-value", "the solved unknown is %s under low handles and "
+            "%s under shifted handles (difference %.3g, tolerance %.3g; "
+            "noise of the data about %.1g)" % (
+                va["ret"], vb["ret"], worst, tol,
+                float(np.abs(g.sc.stds[0].noise[0]).mean())))
+        return
+    da, db = res.ev(La["dump"]), res.ev(Lb["dump"])
+    aa, ab = res.ev(La["apply"]), res.ev(Lb["apply"])
+    if aa is None or ab is None or aa.get("ret") != ab.get("ret"):
+        bad("apply-verdict", "vnacal_apply_m: %s / %s" % (aa, ab))
+        return
+    if aa.get("ret") == 0 and da is not None and db is not None:
+        if da.get("out") != db.get("out"):
+            # not bit for bit: compare the cells
+            try:
+                ca = np.array(da["out"]["data"], dtype=float).ravel()
+                cb_ = np.array(db["out"]["data"], dtype=float).ravel()
+                dd = float(np.max(np.abs(ca - cb_))) if ca.shape == cb_.shape \
+                    else float("inf")
+            except Exception:
+                dd = float("inf")
+            if not dd <= 1e-6 * (1 + g.kappa):
+                bad("corrected-device", "the corrected device differs by "
+                    "%.3g between the two" % dd)
+                return
+        cnt["shift_applies_compared"] = cnt.get(
+            "shift_applies_compared", 0) + 1
+    if len([x for x in part["samples"] if x.get("kind") == "handle shift"]) < 1:
+        part["samples"].append(dict(kind="handle shift", shape=g.shape,
+                                    info=g.info, value_low=va["ret"],
+                                    value_shifted=vb["ret"]))
+
+
 def work(chunk_id, payload):
     seed, ncases, nops, binary, workroot = payload
     part = dict(evaluations=0, counters={}, maxima={}, distinct=set(),
@@ -171,9 +258,30 @@ def work(chunk_id, payload):
         if text is not None:
             cases.append(("r%d_%d" % (chunk_id, k), text))
             rgens["r%d_%d" % (chunk_id, k)] = rg
+    sgens = {}
+    for k in range(max(3, ncases // 2)):
+        rng = np.random.default_rng([seed, chunk_id, k, 1618])
+        sg = gen_handles.ShiftGen(rng)
+        text = sg.generate()
+        if text is not None:
+            cases.append(("s%d_%d" % (chunk_id, k), text))
+            sgens["s%d_%d" % (chunk_id, k)] = sg
     wd = os.path.join(workroot, "w%d" % chunk_id)
     results = R.run_cases(binary, cases, wd, timeout=1800, watchdog=60)
     texts = dict(cases)
+    for cid, sg in sgens.items():
+        res, text = results[cid], texts[cid]
+        v, inc = R.standard_violations(res, text, PROP)
+        part["violations"] += v
+        part["inconclusive"] += inc
+        if res.status in ("driver_error", "notrun"):
+            part["harness_errors"].append("%s: %s %s" % (cid, res.status,
+                                                         res.detail))
+            continue
+        if res.status != "ok":
+            continue
+        part["evaluations"] += 1
+        judge_shift(sg, res, text, part)
     for cid, rg in rgens.items():
         res, text = results[cid], texts[cid]
         v, inc = R.standard_violations(res, text, PROP)
